@@ -222,7 +222,8 @@ pub fn dt_strings(k: usize) -> Vec<String> {
             set.insert(format!("2000-01-01T00:00:00{}23:{:02}", sign, om));
         }
     }
-    for n in 1..=12 {
+    // 1*DIGIT is unbounded: fractions far longer than any machine word must be accepted and truncated
+    for n in (1..=12).chain([15, 18, 19, 20, 21, 25, 40, 100]) {
         for d in ["1", "9", "5"] {
             set.insert(format!("00:00:00.{}", d.repeat(n)));
             set.insert(format!("2000-01-01T00:00:00.{}Z", d.repeat(n)));
@@ -515,7 +516,7 @@ fn u_corpus(rep: &mut Report, tier: Tier, eval: Eval<'_>) {
 //   ¶  line slot before a statement (blank lines / comment lines)
 //   ¤  trailer slot after a statement, before its line ending
 //   ↵  the line ending itself (LF / CRLF)
-pub const DECOR_SKELETONS: [&str; 34] = [
+pub const DECOR_SKELETONS: [&str; 46] = [
     "¶~a~=~1~¤↵",
     "¶~a~.~b~=~1~¤↵¶~a~.~c~=~2~¤↵",
     "¶~\"a\"~.~'b'~=~\"x\"~¤↵",
@@ -550,6 +551,18 @@ pub const DECOR_SKELETONS: [&str; 34] = [
     "¶~a~=~[§1§,§2§]~¤↵¶~[~t~]~¤↵¶~a~=~[§[§]§]~¤↵",
     "¶~[~a~]~¤↵¶~[~b~]~¤↵¶~[~a~.~c~]~¤↵¶~x~=~1~¤↵",
     "¶~a~=~1~¤↵¶~b~.~c~=~2~¤↵¶~d~=~3~¤↵",
+    "¶~[~a~]~¤↵¶~[[~a~.~b~]]~¤↵¶~x~=~1~¤↵¶~[[~a~.~b~]]~¤↵¶~[~a~.~c~]~¤↵",
+    "¶~[[~a~]]~¤↵¶~[~a~.~t~]~¤↵¶~k~=~1~¤↵¶~[[~a~]]~¤↵¶~[~a~.~t~]~¤↵¶~k~=~2~¤↵",
+    "¶~a~=~[§{~x~=~1~,~y~=~[§2§,§]~}§,§]~¤↵",
+    "¶~a~=~'#x'~¤↵¶~b~=~\"#y\"~¤↵",
+    "¶~\"a\"~.~b~=~1~¤↵¶~'a'~.~c~=~2~¤↵",
+    "¶~a~=~[§\"\"\"x\ny\"\"\"§,§'''z'''§]~¤↵",
+    "¶~t~.~a~=~{~}~¤↵¶~t~.~b~=~[§]~¤↵¶~[~u~]~¤↵",
+    "¶~[~a~]~¤↵¶~[~a~.~b~]~¤↵¶~[~a~.~b~.~c~]~¤↵¶~z~=~0~¤↵",
+    "¶~[[~a~]]~¤↵¶~[[~a~]]~¤↵¶~[[~a~]]~¤↵",
+    "¶~k~=~-1.5e+3~¤↵¶~l~=~07:32:00.5~¤↵¶~m~=~1979-05-27 07:32:00-07:00~¤↵",
+    "¶~a~.~b~=~1~¤↵¶~[~c~]~¤↵¶~a~.~b~=~2~¤↵",
+    "¶~a~=~{~b~=~1~}~¤↵¶~[~c~.~d~]~¤↵¶~e~=~{~f~.~g~=~2~}~¤↵",
 ];
 
 const F_INLINE: [&str; 4] = ["", " ", "\t", "  \t"];
@@ -616,7 +629,7 @@ pub fn decor_cases(k: usize) -> Vec<String> {
 
 fn u_decor(rep: &mut Report, tier: Tier, eval: Eval<'_>) {
     let t0 = Instant::now();
-    let k = tier.pick(1, 2);
+    let k = tier.pick(2, 3);
     let cases = decor_cases(k);
     let f = |s: &str, acc: &mut Acc| eval(s.as_bytes(), "U-decor", acc);
     let (total, acc) = sweep_list(&cases, &f);
